@@ -116,6 +116,7 @@ func invParser(p *Parser) bool {
 //@ ensures [count] len(result) <= len(old(p.data)) + 1
 
 //@ func (*Parser).parseItemSize
+//@ paths split
 //@ requires invParser(p)
 //@ modifies p.data, p.pos
 //@ ensures [inv]   invParser(p) && p.pos+1 >= old(p.pos)
